@@ -7,6 +7,7 @@ import (
 	"net/http"
 	"net/url"
 	"strings"
+	"sync"
 )
 
 var (
@@ -21,6 +22,29 @@ var upstreamClient = &http.Client{
 	CheckRedirect: func(req *http.Request, via []*http.Request) error {
 		return http.ErrUseLastResponse
 	},
+}
+
+var (
+	noCompressionMu   sync.Mutex
+	noCompressionDone *http.Transport // The default transport that has been taken care of
+)
+
+// Left to itself, http.DefaultTransport adds "Accept-Encoding: gzip" to a request whose client sent
+// none, decodes the answer and drops Content-Encoding, while the validators still belong to the gzip
+// representation: the client would get a body it did not ask for under an ETag that names another
+// one. The proxy relays encodings as they are, so the transport must not negotiate any on its own.
+func disableTransparentCompression() {
+	transport, ok := http.DefaultTransport.(*http.Transport)
+	if !ok {
+		return
+	}
+
+	noCompressionMu.Lock()
+	defer noCompressionMu.Unlock()
+	if transport != noCompressionDone {
+		transport.DisableCompression = true
+		noCompressionDone = transport
+	}
 }
 
 func removeHopByHopHeaders(header http.Header) {
@@ -85,6 +109,8 @@ func sendRequestToTarget(req *http.Request, httpsDefault bool) (*http.Response, 
 	changeRequestToTarget(req, httpsDefault)
 	// Remove hop-by-hop headers in the request that should not be forwarded to the target server.
 	removeHopByHopHeaders(req.Header)
+
+	disableTransparentCompression()
 
 	slog.Debug("Sending request", "url", req.URL, "method", req.Method)
 	resp, err := upstreamClient.Do(req)
